@@ -561,3 +561,32 @@ func (e *Exec) StrConcrete(s *Str, ev *sym.Evaluator) string {
 	}
 	return string(buf)
 }
+
+// IteStr: term-level conditional on strings.
+func (e *Exec) IteStr(c *sym.Term, a, b *Str) *Str {
+	cc := e.C
+	if !a.IsConc && !b.IsConc && a.Base == b.Base {
+		max := a.Max
+		if b.Max > max {
+			max = b.Max
+		}
+		return e.mkView(a.Base, cc.Ite(c, a.Off, b.Off), cc.Ite(c, a.Len, b.Len), max)
+	}
+	// general case: cell-wise conditional on a fresh base
+	n := a.Max
+	if b.Max > n {
+		n = b.Max
+	}
+	cells := make([]*sym.Term, n)
+	for k := 0; k < n; k++ {
+		var x, y *sym.Term = cc.BV(0, 8), cc.BV(0, 8)
+		if k < a.Max {
+			x = e.at(a, k)
+		}
+		if k < b.Max {
+			y = e.at(b, k)
+		}
+		cells[k] = cc.Ite(c, x, y)
+	}
+	return e.mkView(&StrBase{Cells: cells, Name: "ite"}, e.i64(0), cc.Ite(c, e.lenOf(a), e.lenOf(b)), n)
+}
